@@ -25,9 +25,44 @@ def grids(rng):
     return out
 
 
+def corner_points(payload, rng):
+    """replay of the corner-point obligations of the 9-point Laplacian: the real setter on the reflected /
+    periodic extension of a random field, and the integral of the 9-point Laplacian itself"""
+    from pde.backends.numba.operators.cartesian import make_corner_point_setter_2d
+
+    fails, cases = [], 0
+    for per in payload.get("periodicities", [[False, False], [True, False], [False, True], [True, True]]):
+        for _ in range(payload.get("n9", 2)):
+            shape = [int(rng.integers(2, 6)), int(rng.integers(2, 6))]
+            grid = CartesianGrid([(0, float(shape[0])), (0, float(shape[1]))], shape, periodic=per)
+            u = rng.uniform(-1, 1, shape)
+            rho = [[(n - 1 if p else 0)] + list(range(n)) + [(0 if p else n - 1)] for n, p in zip(shape, per)]
+            ext = u[np.ix_(rho[0], rho[1])]
+            arr = ext.copy()
+            for c in ((0, 0), (-1, 0), (0, -1), (-1, -1)):
+                arr[c] = np.nan
+            make_corner_point_setter_2d(grid)(arr)
+            cases += 1
+            for k, c in enumerate(((0, 0), (-1, 0), (0, -1), (-1, -1))):
+                if not np.isclose(arr[c], ext[c]):
+                    fails.append({"id": f"corner_point_{k}", "periodic": per, "shape": shape, "got": float(arr[c]), "want": float(ext[c])})
+            f = ScalarField(grid, u)
+            for w in (1 / 3, 0.5):
+                lap = f.laplace("auto_periodic_neumann", corner_weight=w, backend="numba")
+                cases += 1
+                if abs(lap.integral) > 1e-10 * (np.abs(lap.data).sum() + 1e-9):
+                    fails.append({"id": "laplace9_integral", "periodic": per, "shape": shape, "corner_weight": w, "integral": float(lap.integral)})
+    return cases, fails
+
+
 def run(payload):
     rng = np.random.default_rng(payload.get("seed", 0))
     fails, cases = [], 0
+    c9, f9 = corner_points(payload, rng)
+    cases += c9
+    fails += f9[:3]
+    if payload.get("only_corner_points"):
+        return {"ok": True, "cases": cases, "failures": fails}
     for _ in range(payload.get("n", 3)):
         for grid in grids(rng):
             f = ScalarField(grid, rng.uniform(-1, 1, grid.shape))
